@@ -417,6 +417,7 @@ def run(ctx, rep):
     exports_declared_once(F, rep)
     modules_are_not_left_by_return(F, rep)
     exports_are_registered_by_module_level_code(F, rep)
+    names_import_supplies_what_it_binds(F, rep)
 
 
 def rules_fn_arg(fn, op):
@@ -710,3 +711,37 @@ def exports_are_registered_by_module_level_code(F, rep, rule="C11.export-once"):
             ok, why = False, "an emitter of %s this rule does not know" % name
         rep.ob(rule, "%s emits %s only for a declaration at the top level of the module" % (owner, name), "ok" if ok else "violated", why, span, fn=f.path,
                key="%s|module-level|%s|%s" % (rule, owner, name))
+
+
+
+def names_import_supplies_what_it_binds(F, rep, rule="C11.names-import"):
+    """`import X from m` binds X in the importing scope (add_dependency) and reports X as supplied by the statement (the identifiers kept in the
+    Import node, which `supplies()` hands to the capture analysis).  The analysis cancels a use against a supply by name *and type*: the
+    two have to be one identifier.  If the scope gets X typed as a constructor and the supply keeps the exported class type, a function that
+    names-imports a class and constructs it leaks `X` onto its capture list and fails when it is made (`X is not in scope`).  Structural part:
+    in Parser::import_names the identifier pushed onto the names list and the one handed to add_dependency are the same local."""
+    g = F.fn("compiler::ast::import::<impl compiler::parser::Parser>::import_names")
+    if g is None:
+        raise AnchorMissing("Parser::import_names")
+    deps = g.calls_to("compiler::parser::AssocFileData::add_dependency")
+    pushes = [c for c in g.calls() if mir.strip_generics(c.callee()).endswith("Vec::push") and "ident::Ident" in " ".join(c.t["func"].get("ga") or [])]
+    rep.floor(rule + " identifiers bound by import_names", len(deps), 1)
+    rep.floor(rule + " identifiers kept by import_names", len(pushes), 1)
+
+    def base(l, depth=6):
+        for _ in range(depth):
+            ds = [d for d in rules.defs_of(g, l) if d[0] == "assign" and not d[3].get("p")] if l is not None else []
+            if len(ds) != 1:
+                return l
+            rv = ds[0][4]
+            pl = rv.get("ref") or (mir.op_place(rv["use"]) if "use" in rv else None)
+            if not pl or (pl.get("p") and pl.get("p") != [["deref"]]):      # `&*(&x)` is still x
+                return l
+            l = pl["l"]
+        return l
+    bound = {base(op_local(c.args[1])) for c in deps if len(c.args) > 1}
+    kept = {base(op_local(c.args[1])) for c in pushes if len(c.args) > 1}
+    ok = bool(bound) and bound == kept
+    rep.ob(rule, "import_names keeps (and so supplies) the very identifier it binds in the scope", "ok" if ok else "violated",
+           "" if ok else "bound: locals %s, kept: locals %s - a class imported by name inside a function is bound as its constructor but supplied as the class, so the function "
+                         "tries to capture it" % (sorted(bound), sorted(kept)), (pushes[0].span if pushes else g.span), fn=g.path, key=rule + "|same-ident")
